@@ -604,6 +604,7 @@ func (c *Ctx) Bin(op Op, a, b *Term) *Term {
 	}
 	if op == OOr && s.W >= 16 && (a.Op == OShl || b.Op == OShl) {
 		probe := &Term{Op: op, Sort: s, Args: []*Term{a, b}}
+		probe.Lo, probe.Hi = typeRange(s)
 		if x := c.recompose(probe); x != nil {
 			return x
 		}
